@@ -2233,7 +2233,14 @@ func (c *linkerContext) generateCodeForLazyExport(sourceIndex uint32) {
 				(!file.IsEntryPoint() || js_ast.IsIdentifierUTF16(str.Value) ||
 					!c.options.UnsupportedJSFeatures.Has(compat.ArbitraryModuleNamespaceNames)) {
 				if name := helpers.UTF16ToString(str.Value); name != "default" {
-					ref, partIndex := generateExport(property.Key.Loc, name, name)
+					// The generated variable ends up at the top level of the output, where
+					// these names cannot be declared if the output is an ES module. They
+					// are not keywords, so the renamer doesn't know to avoid them.
+					symbolName := name
+					if name == "await" || name == "eval" || name == "arguments" {
+						symbolName = "_" + name
+					}
+					ref, partIndex := generateExport(property.Key.Loc, symbolName, name)
 
 					// This initializes the generated variable with a copy of the property
 					// value, which is INCORRECT for values that are objects/arrays because
